@@ -253,7 +253,13 @@ def check_case(case, enforce_all=False):
         s = len(states[b])
         mask = [[0] * s for _ in range(s)]
         mask[x][y] = 1
-        p["selection"] = {"kind": "mask", "full": [], "masks": {str(b): mask}}
+        masks = {str(b): mask}
+        if nb >= 2 and par["size"] != 1:
+            # other blocks get (legal, symmetric) empty masks; the asymmetric entry is the first or the last of the dictionary
+            others = {str(c): [[0] * len(states[c]) for _ in states[c]] for c in range(nb) if c != b}
+            masks = {**masks, **others} if par["size"] == 2 else {**others, **masks}
+            out.labels.append("mask-dict-with-several-blocks")
+        p["selection"] = {"kind": "mask", "full": [], "masks": masks}
         loc_nontrivial = True
 
     if kind == "nonhermitian_sympy":
